@@ -60,10 +60,13 @@ type Exec struct {
 	paramVals   map[string][]*Val
 	pdomCache   map[*ssa.Function]map[*ssa.BasicBlock]*ssa.BasicBlock
 	noMerge     bool
+	opaqueReads map[string]*opaqueRead
+	revealAll   bool
+	autoPat     bool
 }
 
 func newExec(ld *Loaded) *Exec {
-	return &Exec{ld: ld, ct: ld.ct, tags: map[string]int{}, preludeSeen: map[string]bool{}, loops: map[*ssa.Function]*loopInfo{}, maxPaths: 4000, oblCount: map[string]int{}, usedExterns: map[string]bool{}, usedRelies: map[string]bool{}, paramVals: map[string][]*Val{}, pdomCache: map[*ssa.Function]map[*ssa.BasicBlock]*ssa.BasicBlock{}}
+	return &Exec{ld: ld, ct: ld.ct, tags: map[string]int{}, preludeSeen: map[string]bool{}, loops: map[*ssa.Function]*loopInfo{}, maxPaths: 4000, oblCount: map[string]int{}, usedExterns: map[string]bool{}, usedRelies: map[string]bool{}, paramVals: map[string][]*Val{}, pdomCache: map[*ssa.Function]map[*ssa.BasicBlock]*ssa.BasicBlock{}, opaqueReads: map[string]*opaqueRead{}}
 }
 
 func (ex *Exec) fail(f string, a ...any) {
@@ -599,7 +602,7 @@ func (ex *Exec) modifiedIn(blocks []*ssa.BasicBlock, comps map[string]Sort, seen
 
 func (ex *Exec) addMapComps(m *types.Map, comps map[string]Sort) {
 	d, v, c := mapKeys(m)
-	ks := sortOfType(m.Key())
+	ks := mapKeySort(m)
 	comps[d] = arraySort(SInt, arraySort(ks, SBool))
 	if vs := sortOfType(m.Elem()); vs != SAgg {
 		comps[v] = arraySort(SInt, arraySort(ks, vs))
@@ -980,7 +983,7 @@ func (ex *Exec) runBlock(st *State, b *ssa.BasicBlock, pred *ssa.BasicBlock) {
 						continue
 					}
 					idx, decls := ex.frameIdx(k, so, false)
-					goal := ex.frameFormula(k, cur, lh.heap[k], targets, lh.next, idx)
+					goal := ex.frameFormula(k, cur, lh.heap[k], targets, st.next0, idx)
 					lines := append(append([]string(nil), st.lines...), decls...)
 					name := fmt.Sprintf("%s#frame:L%d.%s", shortFn(ex.topKey), nl.ordinal, shortFn(strings.TrimPrefix(strings.TrimPrefix(k, "F:"), "G:")))
 					ex.oblCount[name]++
@@ -1008,7 +1011,7 @@ func (ex *Exec) runBlock(st *State, b *ssa.BasicBlock, pred *ssa.BasicBlock) {
 		}
 		sort.Strings(keys)
 		preLoop := st.snap()
-		preNext := st.next
+		_ = st.next
 		targets := ex.loopTargets(st, lc)
 		lh := &loopHead{heap: map[string]Term{}, keys: keys, sorts: comps}
 		for _, k := range keys {
@@ -1019,12 +1022,12 @@ func (ex *Exec) runBlock(st *State, b *ssa.BasicBlock, pred *ssa.BasicBlock) {
 			if strings.HasPrefix(string(comps[k]), "(Array ") {
 				// locations outside the frame keep their pre-loop values
 				idx, decls := ex.frameIdx(k, comps[k], true)
-				body := ex.frameFormula(k, nc, preLoop.comp(k, comps[k]), targets, preNext, idx)
+				body := ex.frameFormula(k, nc, preLoop.comp(k, comps[k]), targets, st.next0, idx)
 				pat := nc
 				for _, iv := range idx {
 					pat = mkSelect(pat, iv)
 				}
-				st.emit(fmt.Sprintf("(assert (forall (%s) (! %s :pattern (%s))))", strings.Join(decls, " "), body.S, pat.S))
+				st.emit(fmt.Sprintf("(assert (forall (%s) (! %s :pattern (%s) :qid |loopframe.%s|)))", strings.Join(decls, " "), body.S, pat.S, k))
 			}
 		}
 		// allocation may happen inside the loop
@@ -1371,7 +1374,7 @@ func (ex *Exec) step(st *State, b *ssa.BasicBlock, i int, in ssa.Instruction) bo
 		switch t := in.X.Type().Underlying().(type) {
 		case *types.Slice:
 			ex.safe(st, in, "index", mkAnd(app(SBool, "<=", tZero, idx.T), app(SBool, "<", idx.T, sLen(x.T))), "index out of range")
-			set(in, &Val{Typ: in.Type(), Addr: &Addr{Kind: aElem, Base: sArr(x.T), Idx: ex.define(st, "ix", app(SInt, "+", sOff(x.T), idx.T)), Elem: t.Elem()}})
+			set(in, &Val{Typ: in.Type(), Addr: &Addr{Kind: aElem, Base: sArr(x.T), Idx: ex.define(st, "ix", addT(sOff(x.T), idx.T)), Elem: t.Elem()}})
 		case *types.Pointer:
 			arr := t.Elem().Underlying().(*types.Array)
 			ex.safe(st, in, "index", mkAnd(app(SBool, "<=", tZero, idx.T), app(SBool, "<", idx.T, intLit(arr.Len()))), "array index out of range")
@@ -1453,12 +1456,15 @@ func (ex *Exec) step(st *State, b *ssa.BasicBlock, i int, in ssa.Instruction) bo
 		m := in.Type().Underlying().(*types.Map)
 		ref := ex.alloc(st, "map")
 		dk, vk, ck := mapKeys(m)
-		ks := sortOfType(m.Key())
+		ks := mapKeySort(m)
 		dom := st.comp(dk, arraySort(SInt, arraySort(ks, SBool)))
 		st.setComp(dk, ex.define(st, dk, mkStore(dom, ref, constArray(arraySort(ks, SBool), tFalse))))
 		card := st.comp(ck, arraySort(SInt, SInt))
 		st.setComp(ck, ex.define(st, ck, mkStore(card, ref, tZero)))
-		_ = vk
+		if vs := sortOfType(m.Elem()); vs != SAgg {
+			vals := st.comp(vk, arraySort(SInt, arraySort(ks, vs)))
+			st.setComp(vk, ex.define(st, vk, mkStore(vals, ref, constArray(arraySort(ks, vs), zeroOfSort(vs)))))
+		}
 		set(in, scalar(ref, in.Type()))
 		return true
 	case *ssa.MakeSlice:
@@ -1807,7 +1813,7 @@ func (ex *Exec) sliceOp(st *State, in *ssa.Slice) *Val {
 			mx = ex.value(st, in.Max).T
 		}
 		ex.safe(st, in, "slice", mkAnd(app(SBool, "<=", tZero, lo), app(SBool, "<=", lo, hi), app(SBool, "<=", hi, mx), app(SBool, "<=", mx, sCap(x.T))), "slice bounds out of range")
-		return scalar(ex.define(st, "sl", mkSliceT(sArr(x.T), app(SInt, "+", sOff(x.T), lo), app(SInt, "-", hi, lo), app(SInt, "-", mx, lo))), in.Type())
+		return scalar(ex.define(st, "sl", mkSliceT(sArr(x.T), addT(sOff(x.T), lo), app(SInt, "-", hi, lo), app(SInt, "-", mx, lo))), in.Type())
 	case *types.Pointer: // *[N]T
 		arr := t.Elem().Underlying().(*types.Array)
 		n := intLit(arr.Len())
@@ -1837,7 +1843,8 @@ func (ex *Exec) lookup(st *State, in *ssa.Lookup) *Val {
 	if v.Fields != nil {
 		val = v
 	} else {
-		vd := ex.define(st, "mv", mkIte(hasD, v.T, zeroOfSort(v.T.Sort)))
+		// modelling invariant: the value row holds the zero value outside the domain, so no ite is needed
+		vd := ex.define(st, "mv", v.T)
 		st.assume(ex.wfValue(st, mt.Elem(), vd))
 		val = scalar(vd, mt.Elem())
 	}
@@ -1847,9 +1854,27 @@ func (ex *Exec) lookup(st *State, in *ssa.Lookup) *Val {
 	return val
 }
 
+// String map keys are interned: arrays are indexed by (sk key), an injective image of the string
+// (ks is the inverse; see the prelude axiom). Solvers handle Int-indexed arrays with quantifiers far
+// better than String-indexed ones.
+func mapKeySort(mt *types.Map) Sort {
+	if s := sortOfType(mt.Key()); s != SString {
+		return s
+	}
+	return SInt
+}
+
+func mapKeyTerm(k Term) Term {
+	if k.Sort == SString {
+		return Term{"(sk " + k.S + ")", SInt}
+	}
+	return k
+}
+
 func (ex *Exec) mapLoad(st *State, hv HeapView, mt *types.Map, m, k Term) (Term, *Val) {
+	k = mapKeyTerm(k)
 	dk, vk, _ := mapKeys(mt)
-	ks := sortOfType(mt.Key())
+	ks := mapKeySort(mt)
 	dom := hv.comp(dk, arraySort(SInt, arraySort(ks, SBool)))
 	has := mkSelect(mkSelect(dom, m), k)
 	vs := sortOfType(mt.Elem())
@@ -1861,8 +1886,9 @@ func (ex *Exec) mapLoad(st *State, hv HeapView, mt *types.Map, m, k Term) (Term,
 }
 
 func (ex *Exec) mapStore(st *State, mt *types.Map, m, k Term, v *Val) {
+	k = mapKeyTerm(k)
 	dk, vk, ck := mapKeys(mt)
-	ks := sortOfType(mt.Key())
+	ks := mapKeySort(mt)
 	dom := st.comp(dk, arraySort(SInt, arraySort(ks, SBool)))
 	had := ex.define(st, "had", mkSelect(mkSelect(dom, m), k))
 	st.setComp(dk, ex.define(st, dk, mkStore(dom, m, mkStore(mkSelect(dom, m), k, tTrue))))
@@ -1877,14 +1903,20 @@ func (ex *Exec) mapStore(st *State, mt *types.Map, m, k Term, v *Val) {
 }
 
 func (ex *Exec) mapDelete(st *State, mt *types.Map, m, k Term) {
+	k = mapKeyTerm(k)
 	dk, _, ck := mapKeys(mt)
-	ks := sortOfType(mt.Key())
+	ks := mapKeySort(mt)
 	dom := st.comp(dk, arraySort(SInt, arraySort(ks, SBool)))
 	had := ex.define(st, "had", mkSelect(mkSelect(dom, m), k))
 	// delete on a nil map is a no-op
 	st.setComp(dk, ex.define(st, dk, mkIte(mkEq(m, tZero), dom, mkStore(dom, m, mkStore(mkSelect(dom, m), k, tFalse)))))
 	card := st.comp(ck, arraySort(SInt, SInt))
 	st.setComp(ck, ex.define(st, ck, mkStore(card, m, mkIte(had, app(SInt, "-", mkSelect(card, m), tOne), mkSelect(card, m)))))
+	if vs := sortOfType(mt.Elem()); vs != SAgg {
+		_, vk, _ := mapKeys(mt)
+		vals := st.comp(vk, arraySort(SInt, arraySort(ks, vs)))
+		st.setComp(vk, ex.define(st, vk, mkIte(mkEq(m, tZero), vals, mkStore(vals, m, mkStore(mkSelect(vals, m), k, zeroOfSort(vs))))))
+	}
 }
 
 func (ex *Exec) mapLen(st *State, hv HeapView, mt *types.Map, m Term) Term {
